@@ -425,6 +425,8 @@ func (o opj) coq() string {
 		return fmt.Sprintf("OAbandonedDial %d %s", o.P, lib.Bool(o.Closes))
 	case "restart":
 		return fmt.Sprintf("ORestart %d", o.P)
+	case "stopold":
+		return fmt.Sprintf("OStopOld %d", o.P)
 	case "recverr":
 		return fmt.Sprintf("ORecvErr %d %s", o.C, o.E)
 	case "recvmsg":
